@@ -146,6 +146,11 @@ static cgns_io *get_cgnsio (int cgio_num, int write)
         last_err = CGIO_ERR_BAD_CGIO;
         return NULL;
     }
+    /* a slot whose file has been closed stays in the list until it is reused */
+    if (iolist[cgio_num].type == CGIO_FILE_NONE) {
+        last_err = CGIO_ERR_BAD_CGIO;
+        return NULL;
+    }
     if (write && iolist[cgio_num].mode == CGIO_MODE_READ) {
         last_err = CGIO_ERR_READ_ONLY;
         return NULL;
